@@ -144,3 +144,33 @@ fn c12_reloaded_filter_gets_every_span_lifecycle_callback_under_its_own_name() {
     let mut i = 0;
     while i < 5 { assert!(FCALLS[i].load(VSeq) == (i == which) as usize, "C12.filter.lifecycle.exactly_the_namesake_callback_of_the_NEW_value_runs_once"); i += 1; }
 }
+
+// and the span-lifecycle callbacks of a reloadable LAYER: each reaches exactly its namesake of the NEW value once
+#[kani::proof]
+#[kani::unwind(12)]
+#[kani::stub(core::fmt::Formatter::pad, pad_stub)]
+#[kani::stub(tracing_core::callsite::rebuild_interest_cache, rebuild_stub)]
+#[kani::stub(tracing_log::log::set_max_level, set_max_level_stub)]
+fn c12_reloaded_layer_gets_every_span_lifecycle_callback_under_its_own_name() {
+    let (layer, handle) = Subscriber::new(VRec::plain(0));
+    assert!(handle.reload(VRec::plain(1)).is_ok(), "C12.layer.lifecycle.reload_ok");
+    let root = VRoot::empty();
+    let id = span::Id::from_u64(1); let id2 = span::Id::from_u64(2);
+    let vs = VMETA_SPAN.fields().value_set(&[]);
+    let which: usize = nd(); kani::assume(which < 7);
+    let kind = match which {
+        0 => { let a = span::Attributes::new(&VMETA_SPAN, &vs); crate::Subscribe::<VRoot>::on_new_span(&layer, &a, &id, subscribe::Context::__verif_new(&root)); VK_NEW_SPAN }
+        1 => { crate::Subscribe::<VRoot>::on_record(&layer, &id, &span::Record::new(&vs), subscribe::Context::__verif_new(&root)); VK_RECORD }
+        2 => { crate::Subscribe::<VRoot>::on_follows_from(&layer, &id, &id2, subscribe::Context::__verif_new(&root)); VK_FOLLOWS }
+        3 => { crate::Subscribe::<VRoot>::on_enter(&layer, &id, subscribe::Context::__verif_new(&root)); VK_ENTER }
+        4 => { crate::Subscribe::<VRoot>::on_exit(&layer, &id, subscribe::Context::__verif_new(&root)); VK_EXIT }
+        5 => { crate::Subscribe::<VRoot>::on_close(&layer, id.clone(), subscribe::Context::__verif_new(&root)); VK_CLOSE }
+        _ => { crate::Subscribe::<VRoot>::on_id_change(&layer, &id, &id2, subscribe::Context::__verif_new(&root)); VK_IDCHANGE }
+    };
+    let mut k = 0;
+    while k < 10 {
+        assert!(vseen(1, k) == (k == kind) as usize, "C12.layer.lifecycle.exactly_the_namesake_callback_of_the_NEW_value_runs_once");
+        assert!(vseen(0, k) == 0, "C12.layer.lifecycle.the_old_value_is_never_called");
+        k += 1;
+    }
+}
